@@ -91,6 +91,15 @@ def v3_hostile(rng, key, frame):
         out.append(("v3(" + name + ")", v3_encrypted(key, 3, 2, v2)))
     for pad in range(16):
         out.append((f"v3-padnibble{pad}", v3_encrypted(key, 3, 3, good_v2, pad=pad)))
+    # correctly SIGNED packets whose decrypted part is empty or a single block (shorter than id + padding claims)
+    import hashlib as h
+    for t in (3, 6, 15):
+        for plain in (b"", bytes(16), bytes(rng.randrange(256) for _ in range(16))):
+            for padn in (0, 1, 14, 15):
+                size = len(plain) + 32
+                header = bytes([0x83, 0x70, size >> 8, size & 0xFF, 0x20, (padn << 4) | t])
+                cipher = AES.new(bytes(key), AES.MODE_CBC, iv=bytes(16)).encrypt(plain) if plain else b""
+                out.append((f"v3-signed-plain{len(plain)}-pad{padn}-type{t}", header + cipher + h.sha256(header + plain).digest()))
     out.append(("v3-handshake-like-64", v3_raw(1, bytes(2) + bytes(rng.randrange(256) for _ in range(64)))))
     out.append(("v3-header-only", bytes([0x83, 0x70, 0, 0, 0x20, 3])))
     out.append(("v3-tiny", v3_raw(3, b"")))
